@@ -259,16 +259,26 @@ class Mapping(BasicMapping):
                     m = m.subs(sympify(i), 0)
                 return m.subs(d).subs(lcoords_symbols_real_dict).subs(subs)
 
+            def inverse(m):
+                # With floating-point parameters sympy's intermediate simplification of the elimination
+                # (dotprodsimp -> cancel) does not cancel exactly and the inverse is inaccurate
+                # (TwistedTargetMapping with k = 0.317: relative error 2e-6); keep the plain formula,
+                # as for the metric determinant below.
+                if m.has(Float):
+                    with dotprodsimp(False):
+                        return m.inv()
+                return m.inv()
+
             if obj._jac is None and obj._inv_jac is None:
                 obj._jac     = Jacobian(obj).subs(list(zip(args, exprs)))
-                obj._inv_jac = obj._jac.inv() if pdim == ldim else None
+                obj._inv_jac = inverse(obj._jac) if pdim == ldim else None
             elif obj._inv_jac is None:
                 obj._jac     = parse_matrix(obj._jac)
-                obj._inv_jac = obj._jac.inv() if pdim == ldim else None
+                obj._inv_jac = inverse(obj._jac) if pdim == ldim else None
 
             elif obj._jac is None:
                 obj._inv_jac = parse_matrix(obj._inv_jac)
-                obj._jac     = obj._inv_jac.inv()
+                obj._jac     = inverse(obj._inv_jac)
             else:
                 obj._jac     = parse_matrix(obj._jac)
                 obj._inv_jac = parse_matrix(obj._inv_jac)
